@@ -135,25 +135,12 @@ Fixpoint exec_list (m : module) (l : list instr) : M unit :=
   | i :: r => bind (exec m i) (fun _ => exec_list m r)
   end.
 
-Definition crash_prone (i : instr) : bool :=
-  match i with
-  | IConv _ d => (d =? 1) || (d =? 2)
-  | ICint | IClng | IInt | IStrrep => true
-  | _ => false
-  end.
-
-Lemma crash_guard_prone i stk : crash_guard i stk = true -> crash_prone i = true.
-Proof.
-  destruct i; cbn; try discriminate; auto.
-  intro H. apply andb_true_iff in H. tauto.
-Qed.
-
 Definition block_out (l : list instr) (s : st) (t' : list Z) (o : out unit) : Prop :=
   match o with
   | R _ s' => tys (stack s') = t' /\ heap s' = heap s /\ cur s' = cur s /\ events s' = events s
   | T c kw _ => ok_trap c = true /\ kw = true
   | ZD _ => True
-  | X _ _ => exists i, In i l /\ crash_prone i = true
+  | X _ _ => False
   | NI _ => False
   end.
 
@@ -171,11 +158,11 @@ Proof.
       * destruct IH as (A & B & C & D). repeat split; congruence.
       * exact IH.
       * exact I.
-      * destruct IH as (j & Hj & Hp). exists j. split; [right; exact Hj | exact Hp].
+      * exact IH.
       * exact IH.
     + exact Hs.
     + exact I.
-    + exists i. split; [left; reflexivity | eapply crash_guard_prone; exact Hs].
+    + discriminate Hs.
     + exact Hs.
 Qed.
 
